@@ -23,6 +23,8 @@ pub struct MDir {
     pub codec_override: Option<u8>,
     /// flip a byte of the compressed stream at this relative position
     pub corrupt_at: Option<usize>,
+    /// store exactly these bytes as the directory's stream
+    pub raw_stream: Option<Vec<u8>>,
 }
 
 impl MDir {
@@ -70,6 +72,7 @@ impl MDir {
             cut: 0,
             codec_override: None,
             corrupt_at: None,
+            raw_stream: None,
         })
     }
 }
@@ -82,6 +85,8 @@ pub struct MArchive {
     pub leaves: Vec<MDir>,
     pub meta_plain: Vec<u8>,
     pub meta_codec_override: Option<u8>,
+    /// store exactly these bytes as the metadata stream
+    pub meta_raw_stream: Option<Vec<u8>>,
     pub data: Vec<u8>,
     /// recompute section offsets/lengths in the header from the real layout
     pub fix_header: bool,
@@ -103,7 +108,21 @@ fn usable(c: u8) -> u8 {
     }
 }
 
+/// A zstd frame whose header declares `declared` bytes of content (8-byte Frame_Content_Size field, single
+/// segment) but which carries one raw block of `actual.len()` bytes.
+pub fn zstd_frame_declaring(declared: u64, actual: &[u8]) -> Vec<u8> {
+    let mut f = vec![0x28, 0xb5, 0x2f, 0xfd, 0xe0];
+    f.extend_from_slice(&declared.to_le_bytes());
+    let hdr = 1u32 | (actual.len() as u32) << 3; // last block, raw
+    f.extend_from_slice(&hdr.to_le_bytes()[..3]);
+    f.extend_from_slice(actual);
+    f
+}
+
 fn compress_dir(d: &MDir, codec: u8, rng: &mut Rng) -> Vec<u8> {
+    if let Some(raw) = &d.raw_stream {
+        return raw.clone();
+    }
     let mut plain = d.encode_plain();
     let c = d.codec_override.unwrap_or(codec);
     if d.cut > 0 {
@@ -207,6 +226,7 @@ impl MArchive {
             leaves,
             meta_plain,
             meta_codec_override: None,
+            meta_raw_stream: None,
             data,
             fix_header: true,
             header_over: Vec::new(),
@@ -250,8 +270,10 @@ impl MArchive {
         }
         let root_b = compress_dir(&root, self.codec, rng);
         let mc = self.meta_codec_override.unwrap_or(self.codec);
-        let meta_b = R::codec_compress(usable(mc), &self.meta_plain, &CodecParams::plain())
-            .unwrap_or_else(|_| self.meta_plain.clone());
+        let meta_b = match &self.meta_raw_stream {
+            Some(raw) => raw.clone(),
+            None => R::codec_compress(usable(mc), &self.meta_plain, &CodecParams::plain()).unwrap_or_else(|_| self.meta_plain.clone()),
+        };
         let mut h = self.header;
         let mut file = vec![0u8; 127];
         if self.fix_header {
